@@ -186,7 +186,9 @@ def one_case(ctx, rec, kind, pos, now, sid, names, header_len, hs_support, legs,
         ks = refdc.KeyServer(now=now, domain=names[0], forest=names[1], public_for=(lambda s: True) if public else (lambda s: False))
         ks.add_root(rec)
         ks.reply_at_now = reply_at_now
-        return refserver.ReferenceDC(ks, acceptor_factory=lambda: refserver.ToyAcceptor(legs=legs, header_len=header_len, support_header_sign=hs_support))
+        # the ISD_KEY endpoint port varies in its number of digits (the bind_ack's secondary address is the port as text + NUL)
+        isd_port = [49664, 5000, 593, 65535, 1024, 7][(legs + header_len + len(sid)) % 6]
+        return refserver.ReferenceDC(ks, isd_port=isd_port, acceptor_factory=lambda: refserver.ToyAcceptor(legs=legs, header_len=header_len, support_header_sign=hs_support))
 
     blob = None
     if kind == "unprotect":
